@@ -152,11 +152,16 @@ theorem good_supG (k : Name) (cs : Caches) :
     simp only [Correct] at hv
     rw [hv]
 
-theorem forBody_cons_false (next : Name → List Name) (d : Name) (ds : List Name) (st : List (List Name))
-    (acc : List Name) :
+theorem forBody_cons_false_old (next : Name → List Name) (d : Name) (ds : List Name) (st : List (List Name))
+    (acc : List Name) (h : d ∈ acc) :
+    forBody next false (d :: ds) st acc = forBody next false ds st acc := by
+  simp [forBody, h]
+
+theorem forBody_cons_false_new (next : Name → List Name) (d : Name) (ds : List Name) (st : List (List Name))
+    (acc : List Name) (h : ¬ d ∈ acc) :
     forBody next false (d :: ds) st acc =
       forBody next false ds (if (next d).isEmpty then st else next d :: st) (insertSet d acc) := by
-  simp [forBody]
+  simp [forBody, h]
 
 theorem good_forBodyP : ∀ (ds : List Name) (st : List (List Name)) (acc : List Name) (cs : Caches),
     Good cfg (fun r => r = Res.ok (forBody (supertypesOf cfg.ns.defs) false ds st acc)) cs
@@ -166,13 +171,17 @@ theorem good_forBodyP : ∀ (ds : List Name) (st : List (List Name)) (acc : List
   | nil => intro st acc cs; exact .ret rfl
   | cons d ds ih =>
     intro st acc cs
-    simp only [forBodyP]
-    refine good_bind (good_supG d cs) ?_
-    intro a ha cs'
-    subst ha
-    simp only
-    rw [forBody_cons_false]
-    exact ih _ _ cs'
+    by_cases hd : d ∈ acc
+    · simp only [forBodyP, hd, if_true]
+      rw [forBody_cons_false_old _ d ds st acc hd]
+      exact ih _ _ cs
+    · simp only [forBodyP, hd, if_false]
+      refine good_bind (good_supG d cs) ?_
+      intro a ha cs'
+      subst ha
+      simp only
+      rw [forBody_cons_false_new _ d ds st acc hd]
+      exact ih _ _ cs'
 
 theorem good_wlP : ∀ (fuel : Nat) (st : List (List Name)) (acc : List Name) (cs : Caches),
     Good cfg (fun r => r = wl (supertypesOf cfg.ns.defs) false fuel st acc) cs (wlP cfg.ns.defs fuel st acc) := by
